@@ -56,6 +56,15 @@ func tree(e ast.Expr) any {
 		return atom(x.Name)
 	case *ast.BasicLit:
 		return atom(x.Value)
+	case *ast.CompositeLit:
+		// a slice literal []T{a, b}
+		if _, ok := x.Type.(*ast.ArrayType); ok {
+			es := []any{}
+			for _, a := range x.Elts {
+				es = append(es, tree(a))
+			}
+			return []any{"sl", es}
+		}
 	case *ast.FuncLit:
 		// a Folang lambda: func(y T) U { return e }  ->  lam y e   (the closures of partial applications name their parameters _rN)
 		if x.Type.Params != nil && len(x.Type.Params.List) == 1 && len(x.Type.Params.List[0].Names) == 1 &&
@@ -92,6 +101,12 @@ func tree(e ast.Expr) any {
 			return []any{"bin", "|>", tree(x.Args[0]), tree(x.Args[1])}
 		case "OpNot":
 			return []any{"not", tree(x.Args[0])}
+		case "NewTuple2", "NewTuple3":
+			args := []any{}
+			for _, a := range x.Args {
+				args = append(args, tree(a))
+			}
+			return []any{"tup", args}
 		case "IfElse":
 			// frt.IfElse(c, func() T { return t }, func() T { return e })  ->  if c t e
 			if len(x.Args) == 3 {
